@@ -1,4 +1,93 @@
-// harnesses for the private items of the hooked module (see lib/registry.py)
+// Harnesses for the i_overlay conversion glue of geo::algorithm::bool_ops (property C04).
+// The overlay engine itself (i_overlay) is an ASSUMED contract; what is decided here is that geo hands it the
+// rings it was given and reads its result back faithfully.  BOUNDED: rings of concrete small sizes.
+use super::*;
+use super::convert::{line_string_from_path, multi_polygon_from_shapes, polygon_from_shape, ring_to_shape_path};
+use crate::bool_ops::OpType;
+use geo_types::{Coord, CoordNum, LineString, Polygon};
+use i_overlay::core::overlay_rule::OverlayRule;
+
+include!(concat!(env!("GEO_VERIF_DIR"), "/contracts/kani/common.rs"));
+
+#[cfg(kani)]
+fn ring_f64(n: usize) -> LineString<f64> {
+    // pairwise distinct concrete coordinates (the glue only copies them)
+    let mut v = Vec::with_capacity(8);
+    let mut i = 0;
+    while i < n { v.push(Coord { x: (i as f64) * 3.0 + 1.0, y: 10.0 - (i as f64) }); i += 1; }
+    LineString(v)
+}
+
+/// ring -> path: a closed ring of n+1 coordinates becomes the implicit-closed path of its n distinct vertices,
+/// in order; the path never ends with a copy of its first vertex (i_overlay closes paths implicitly)
+#[cfg(kani)]
+fn body_ring_to_path(n: usize, extra_closing: usize) {
+    let mut ring = ring_f64(n);
+    if n > 0 {
+        let f = ring.0[0];
+        let mut k = 0;
+        while k < 1 + extra_closing { ring.0.push(f); k += 1; }     // closed; `extra_closing` repeats the closing vertex
+    }
+    let path = ring_to_shape_path(&ring);
+    if n == 0 { assert!(path.is_empty()); return; }
+    assert!(path.len() == n);
+    let mut i = 0;
+    while i < n { assert!(path[i].0 == ring.0[i]); i += 1; }
+    // no trailing copy of the first vertex
+    assert!(path.len() == n || path[path.len() - 1].0 != path[0].0);
+}
+#[cfg(kani)] #[kani::proof] #[kani::unwind(10)]
+fn c04_k_ring_to_path_0() { body_ring_to_path(0, 0); }
+#[cfg(kani)] #[kani::proof] #[kani::unwind(10)]
+fn c04_k_ring_to_path_4() { body_ring_to_path(4, 0); }
+#[cfg(kani)] #[kani::proof] #[kani::unwind(10)]
+fn c04_k_ring_to_path_4_repeated_closing_vertex() { body_ring_to_path(4, 1); }
+#[cfg(kani)] #[kani::proof] #[kani::unwind(10)]
+fn c04_k_ring_to_path_3_twice_repeated_closing_vertex() { body_ring_to_path(3, 2); }
+
+/// shape -> polygon: first path is the exterior, the rest are holes; every ring is closed and has the
+/// REVERSED vertex order (i_overlay: outer clockwise / holes counter-clockwise, geo: the opposite)
+#[cfg(kani)]
+#[kani::proof]
+#[kani::unwind(10)]
+fn c04_k_polygon_from_shape() {
+    let mk = |n: usize, off: f64| { let mut p = Vec::with_capacity(8); let mut i = 0; while i < n { p.push(BoolOpsCoord(Coord { x: off + i as f64, y: off * 2.0 - i as f64 })); i += 1; } p };
+    let mut shape = Vec::with_capacity(2);
+    shape.push(mk(4, 0.0));
+    shape.push(mk(3, 100.0));
+    let e: Vec<Coord<f64>> = { let p = mk(4, 0.0); let mut v = Vec::with_capacity(4); let mut i = 0; while i < 4 { v.push(p[i].0); i += 1; } v };
+    let h: Vec<Coord<f64>> = { let p = mk(3, 100.0); let mut v = Vec::with_capacity(4); let mut i = 0; while i < 3 { v.push(p[i].0); i += 1; } v };
+    let poly = polygon_from_shape(shape);
+    assert!(poly.interiors().len() == 1);
+    let (ex, ho) = (&poly.exterior().0, &poly.interiors()[0].0);
+    assert!(ex.len() == 5 && ex[0] == ex[4] && ho.len() == 4 && ho[0] == ho[3]);
+    // closed [p0 p1 p2 p3 p0] reversed = [p0 p3 p2 p1 p0]
+    assert!(ex[0] == e[0] && ex[1] == e[3] && ex[2] == e[2] && ex[3] == e[1]);
+    assert!(ho[0] == h[0] && ho[1] == h[2] && ho[2] == h[1]);
+    // an empty shape is the empty polygon
+    let empty = polygon_from_shape(Vec::<Vec<BoolOpsCoord<f64>>>::new());
+    assert!(empty.exterior().0.is_empty() && empty.interiors().is_empty());
+}
+
+#[cfg(kani)]
+#[kani::proof]
+#[kani::unwind(10)]
+fn c04_k_line_string_from_path() {
+    let mut p = Vec::with_capacity(4);
+    p.push(BoolOpsCoord(Coord { x: 1.0, y: 2.0 })); p.push(BoolOpsCoord(Coord { x: 3.0, y: 4.0 })); p.push(BoolOpsCoord(Coord { x: 5.0, y: 6.0 }));
+    let ls = line_string_from_path(p);
+    assert!(ls.0.len() == 3 && ls.0[0] == Coord { x: 1.0, y: 2.0 } && ls.0[1] == Coord { x: 3.0, y: 4.0 } && ls.0[2] == Coord { x: 5.0, y: 6.0 });
+}
+
+/// the four operations map to the engine's rules of the same name (complete: 4 cases)
+#[cfg(kani)]
+#[kani::proof]
+fn c04_k_op_type_to_overlay_rule() {
+    assert!(matches!(OverlayRule::from(OpType::Intersection), OverlayRule::Intersect));
+    assert!(matches!(OverlayRule::from(OpType::Union), OverlayRule::Union));
+    assert!(matches!(OverlayRule::from(OpType::Difference), OverlayRule::Difference));
+    assert!(matches!(OverlayRule::from(OpType::Xor), OverlayRule::Xor));
+}
 
 #[cfg(kani)]
 include!(concat!(env!("GEO_VERIF_DIR"), "/.work/playback/pb_c04_convert.rs"));
